@@ -230,12 +230,44 @@ Definition run_buildw (args : list (list byte)) : list byte :=
   | _ => s2b "BADCASE"
   end.
 
+(* MATCHN rt rc qt qc: like MATCH, the record holding RData::NULL(rt, data) *)
+Definition run_matchn (args : list (list byte)) : list byte :=
+  match map hex_to_N args with
+  | [Some rt; Some rc; Some qt; Some qc] =>
+    match class_of_code rc, qclass_of_code qc with
+    | Ok k, Ok q =>
+      let t := type_of_rdata (RD_null rt [x01]) in
+      unwords [ty_tok t; bool_tok (match_qtype t (qtype_for_match qt)); bool_tok (match_qclass k q)]
+    | _, _ => s2b "BADCASE"
+    end
+  | _ => s2b "BADCASE"
+  end.
+(* RRMATCH hex qt qc: a record obtained by parsing, matched against a question type / class *)
+Definition run_rrmatch (args : list (list byte)) : list byte :=
+  match args with
+  | [h; a; b] =>
+    match hex_to_bytes h, hex_to_N a, hex_to_N b with
+    | Some d, Some qt, Some qc =>
+      match qclass_of_code qc with
+      | Ok q =>
+        out_line (parse_rr d 0) (fun '(r, _) =>
+          let t := type_of_rdata (rdata_of r) in
+          unwords [ty_tok t; bool_tok (match_qtype t (qtype_for_match qt)); bool_tok (match_qclass (rclass r) q)])
+      | _ => s2b "BADCASE"
+      end
+    | _, _, _ => s2b "BADCASE"
+    end
+  | _ => s2b "BADCASE"
+  end.
+
 Definition run_line (line : list byte) : list byte :=
   match tokens line with
   | [] => []
   | cmd :: args =>
     if tok_eqb cmd "CODE" then run_codes args
     else if tok_eqb cmd "MATCH" then run_match args
+    else if tok_eqb cmd "MATCHN" then run_matchn args
+    else if tok_eqb cmd "RRMATCH" then run_rrmatch args
     else if tok_eqb cmd "HDR" then run_hdr args
     else if tok_eqb cmd "PARSE" then run_parse args
     else if tok_eqb cmd "PARSEM" then run_parse args
